@@ -94,11 +94,26 @@ func groupObligations(obls []*Obligation) []*oblGroup {
 }
 
 // sKey aggregates safety obligations per function: "<func>#S" means "the function is panic-free".
+// sKey: safety (S) and frame (R.frame) obligations are judged per FUNCTION: they are generated per site / per touched
+// heap field, so a change that adds a panicking site or a write to a field the delivered code never touched produces
+// an obligation with a new name. It still breaks what the function's contract promised on the delivered tree
+// (no panic; only the assigned locations change), provided the function was verified there at all.
 func sKey(name string) string {
 	if i := strings.Index(name, "#S."); i >= 0 {
-		return name[:i] + "#S"
+		return name[:i] + "#*"
+	}
+	if i := strings.Index(name, "#R.frame["); i >= 0 {
+		return name[:i] + "#*"
+	}
+	if i := strings.Index(name, "#"); i >= 0 {
+		return name[:i] + "#*" // every baseline obligation marks its function as verified on the delivered tree
 	}
 	return name
+}
+
+// fnVerifiedKey is what sKey yields for the S / R.frame obligations of a function.
+func perFunctionClass(name string) bool {
+	return strings.Contains(name, "#S.") || strings.Contains(name, "#R.frame[")
 }
 
 type runResult struct {
@@ -260,7 +275,7 @@ func cmdCheck(args []string) int {
 		c := byClass[g.class]
 		c[0]++
 		byClass[g.class] = c
-		if inBase[g.name] || inBase[sKey(g.name)] {
+		if inBase[g.name] || (perFunctionClass(g.name) && inBase[sKey(g.name)]) {
 			violations++
 			path := writeReplay(replayDir, *prop, g, rr, smtDir)
 			suffix := " no-failing-input-found"
@@ -306,11 +321,10 @@ func cmdCheck(args []string) int {
 	present := map[string]bool{}
 	for _, g := range groups {
 		present[g.name] = true
-		present[sKey(g.name)] = true
 	}
 	var missing []string
 	for _, n := range base.Properties[*prop] {
-		if !present[n] && !present[sKey(n)] && isTopLevelClaim(n) {
+		if !present[n] && isTopLevelClaim(n) {
 			missing = append(missing, n)
 		}
 	}
